@@ -316,6 +316,10 @@ func c15Gen(t *rapid.T, s *c15State) c15Req {
 	if rapid.IntRange(0, 4).Draw(t, "unknownLength") == 0 {
 		q.opt.unknownCL = true
 	}
+	if len(q.body) > 0 && rapid.IntRange(0, 7).Draw(t, "truncatedTransfer") == 0 {
+		q.opt.truncate = true // the client stops sending half way: its mistake, not the server's
+		q.odd = true
+	}
 	if rapid.IntRange(0, 9).Draw(t, "forwarded") == 0 {
 		q.opt.hdr["X-Forwarded-For"] = rapid.SampledFrom([]string{"10.0.0.1", "", ", ", "::1, 10.0.0.2"}).Draw(t, "xff")
 	}
@@ -356,7 +360,7 @@ func c15Property(t *rapid.T, st *Stats) {
 		}
 		prev = q
 		r := doReq(s.srv, q.method, q.target, q.body, q.opt)
-		line := fmt.Sprintf("%s %s hdr=%v bodyLen=%d unknownLen=%v -> %d", q.method, trunc([]byte(q.target), 300), q.opt.hdr, len(q.body), q.opt.unknownCL, r.code)
+		line := fmt.Sprintf("%s %s hdr=%v bodyLen=%d unknownLen=%v truncated=%v -> %d", q.method, trunc([]byte(q.target), 300), q.opt.hdr, len(q.body), q.opt.unknownCL, q.opt.truncate, r.code)
 		trace = append(trace, line)
 		if r.code == -1 && r.stack == "" {
 			continue // not a request that can be sent at all (unparsable target)
